@@ -84,7 +84,7 @@ Fixpoint blk_loop (max : Z) (n : nat) (l : store) (seq total : Z) : option (list
 
 (** getTxReceipts / getEVMEvent:
       if len(perBlk) > 0 && totalSize+size < maxSize { append; totalSize += size }
-      else if totalSize+size > maxSize { break }
+      else if totalSize+size >= maxSize { break }
       actualIterCount++
     Result: appended sequence numbers and actualIterCount. *)
 Fixpoint rcv_loop (max : Z) (n : nat) (l : store) (seq total : Z) : option (list Z * Z) :=
@@ -99,7 +99,7 @@ Fixpoint rcv_loop (max : Z) (n : nat) (l : store) (seq total : Z) : option (list
                | Some (a, it) => Some (seq :: a, it + 1)
                | None => None
                end
-          else if total + size >? max then Some ([], 0)
+          else if total + size >=? max then Some ([], 0)
           else match rcv_loop max n' tl (seq + 1) total with
                | Some (a, it) => Some (a, it + 1)
                | None => None
